@@ -439,6 +439,12 @@ def run_property(prop: str, tier: str, run: Callable[[Ctx], None], meta: dict) -
             print(f"VIOLATION property={prop} replay={rp}")
             print(f"  rule={f.rule} construct={f.construct} at {f.loc}: {f.detail}")
         rc = 1
+    if tier == "thorough" and not os.environ.get("VERIF_REPO"):
+        # non-gating self-validation of the checker: seeded variants of the current tree (DESIGN 6)
+        try:
+            ctx.units["self_validation"] = _self_validation(prop)
+        except Exception as ex:  # never gate on it
+            ctx.units["self_validation"] = {"error": repr(ex)}
     wall = time.time() - t0
     _write_evidence(evidence_path, prop, tier, seed, meta, ctx, wall, new=new, known_seen=seen_known)
     n_ok = sum(1 for i in ctx.instances if i.status == "ok")
@@ -447,6 +453,35 @@ def run_property(prop: str, tier: str, run: Callable[[Ctx], None], meta: dict) -
         f"known={len(seen_known)} new={len(new)} wall={wall:.2f}s"
     )
     return rc
+
+
+def _self_validation(prop: str) -> dict:
+    import subprocess
+    import tempfile
+
+    with tempfile.NamedTemporaryFile(suffix=".json", delete=False) as tf:
+        out = tf.name
+    try:
+        env = {k: v for k, v in os.environ.items() if k not in ("VERIF_TIER",)}
+        env["VERIF_TIER"] = "quick"
+        subprocess.run([sys.executable, "-m", "sa.selftest", "--prop", prop, "--json", out, "--jobs", "16"], cwd=VERIF, env=env, capture_output=True, text=True, timeout=3000)
+        with open(out) as f:
+            res = json.load(f)
+    finally:
+        if os.path.exists(out):
+            os.unlink(out)
+    fire = [r for r in res if r.get("expect") == "fire"]
+    silent = [r for r in res if r.get("expect") == "silent"]
+    return {
+        "variants": len(res),
+        "must_fire": len(fire),
+        "fired": sum(1 for r in fire if r["status"] == "pass"),
+        "must_stay_silent": len(silent),
+        "stayed_silent": sum(1 for r in silent if r["status"] == "pass"),
+        "stale": [r["id"] for r in res if r["status"] == "stale"],
+        "failures": [r["id"] for r in res if r["status"] == "FAIL"],
+        "kill_matrix": {r["id"]: {p: x.get("first", "")[:160] for p, x in r.get("results", {}).items()} for r in fire if r["status"] == "pass"},
+    }
 
 
 def _write_evidence(path, prop, tier, seed, meta, ctx: Ctx | None, wall, new=(), known_seen=(), error=None) -> None:
